@@ -200,6 +200,18 @@ MUTANTS = [
     (CX, "            if not all(isinstance(v, str) for v in values):", "            if not any(isinstance(v, str) for v in values):", ['contexts.fromdict'], 'breaks'),
     # dropping the early row-count check is behaviour preserving: Context.__init__ rejects the mismatch with ValueError as well
     (CX, "        if len(context) != len(objects):", "        if False:", ['contexts.fromdict'], 'equivalent'),
+    (LT, "            index_map = dict(enumerate(concepts))\n            shortlex = inst._shortlex\n            longlex = inst._longlex\n            concepts.sort(key=shortlex)",
+         "            shortlex = inst._shortlex\n            longlex = inst._longlex\n            concepts.sort(key=shortlex)\n            index_map = dict(enumerate(concepts))", ['lattices._fromlist.raw'], 'breaks'),
+    (LT, "            concepts.sort(key=shortlex)\n", "            concepts.sort(key=longlex)\n", ['lattices._fromlist.raw'], 'breaks'),
+    (LT, "                upper = (index_map[i] for i in c.upper_neighbors)\n                lower = (index_map[i] for i in c.lower_neighbors)\n                c.upper_neighbors = tuple(sorted(upper, key=shortlex))",
+         "                upper = (index_map[i] for i in c.upper_neighbors)\n                lower = (index_map[i] for i in c.lower_neighbors)\n                c.upper_neighbors = tuple(upper)", ['lattices._fromlist.raw'], 'breaks'),
+    (LT, "                c.lower_neighbors = tuple(concepts[i] for i in c.lower_neighbors)", "                c.lower_neighbors = tuple(concepts[i] for i in c.upper_neighbors)", ['lattices._fromlist.ordered'], 'breaks'),
+    (LT, "make_properties(sum(1 << i for i in in_)),", "make_properties(sum(1 << i for i in ex)),", ['lattices._fromlist.ordered', 'lattices._fromlist.raw'], 'breaks'),
+    (LT, "        cls._init(inst, context, concepts)\n        return inst", "        cls._init(inst, context, concepts, unpickle=True)\n        return inst", ['lattices._fromlist.ordered'], 'breaks'),
+    (CX, "                            require_lattice=require_lattice, raw=raw)", "                            require_lattice=require_lattice)", ['contexts.fromjson'], 'breaks'),
+    (CX, "        elif ignore_lattice is None and 'lattice' not in self.__dict__:", "        elif ignore_lattice is None:", ['contexts.todict.none'], 'breaks'),
+    (M, "                 (X._id, Y._id)))", "                 (Y._id, X._id)))", ['matrices.Relation.__reduce__'], 'breaks'),
+    (LT, "                 tuple(u.index for u in c.upper_neighbors),", "                 tuple(u.dindex for u in c.upper_neighbors),", ['lattices._tolist'], 'breaks'),
 ]
 
 
